@@ -20,7 +20,7 @@ RULE = (
     "cases = advertisement histories fed to the real scanner callback of a BleController with a loaded BlePairing (cached"
     " accessories of every characteristic format + broadcast key). Alphabet: genuine with state number last+1 / last+k"
     " (k<100) / last (replay) / last-k / last+100 / last+1000; wrong key; advertising id of another loaded pairing; unknown"
-    " id; inner counter != nonce counter; truncated payload; EVERY single-bit flip of the 12-byte payload and 4-byte tag."
+    " id; inner counter != nonce counter; truncated payload; 4 tag bytes taken from a shifted offset of the full tag; EVERY single-bit flip of the 12-byte payload and 4-byte tag."
     " ALL histories of the bounded length over the class alphabet, seeded random ones beyond, from start state numbers"
     " {0,1,255,256,65000,65534}; values at the boundaries of every format. After each advertisement the listener log and"
     " description.state_num are compared with the reference model. Distinct by (start, history, values); non-trivial = all."
@@ -41,7 +41,7 @@ DEVICE_ID = bytes.fromhex("aabbcc001122")
 OTHER_ID = bytes.fromhex("998877665544")
 UNKNOWN_ID = bytes.fromhex("010203040506")
 FORMATS = {10: "bool", 11: "uint8", 12: "uint16", 13: "uint32", 14: "uint64", 15: "int", 16: "float", 17: "string", 18: "data"}
-CLASSES = ["G1", "Gk", "Gk99", "Gcur", "Gold", "G100", "G1000", "WK", "WA", "UA", "IG", "TR"]
+CLASSES = ["G1", "Gk", "Gk99", "Gcur", "Gold", "G100", "G1000", "WK", "WA", "UA", "IG", "TR", "ST"]
 
 
 def entity_map():
@@ -151,6 +151,14 @@ def build_ad(w: World, klass: str, rng, arg=None):
     inner = n & 0xFFFF if inner is None else inner
     pt = refb.plaintext_for(inner, iid, value)
     payload = refb.seal(key, adv, n, pt)
+    if klass == "ST":
+        # genuine ciphertext, but the 4 tag bytes are taken from a later offset of the full 16-byte tag
+        from cryptography.hazmat.primitives.ciphers.aead import ChaCha20Poly1305
+
+        full = ChaCha20Poly1305(key).encrypt(refb.nonce(n), pt, adv)
+        k = rng.randrange(1, 13)
+        if full[12 + k : 16 + k] != full[12:16]:
+            payload = full[:12] + full[12 + k : 16 + k]
     if klass == "TR":
         payload = payload[: rng.randrange(0, 12)]
     if klass == "BF":
@@ -202,7 +210,7 @@ def step(ctx, w: World, klass, rng, replay, arg=None) -> bool:
         if accepted:
             key = {"Gcur": "replay-of-current-state-accepted", "Gold": "older-state-accepted", "G100": "beyond-window-accepted", "G1000": "beyond-window-accepted",
                    "WK": "wrong-key-accepted", "WA": "wrong-advertising-id-accepted", "UA": "unknown-id-accepted", "IG": "inner-counter-mismatch-accepted",
-                   "TR": "truncated-payload-accepted", "BF": "corrupted-advertisement-accepted"}.get(exp["klass"], "unauthentic-advertisement-accepted")
+                   "TR": "truncated-payload-accepted", "ST": "shifted-tag-accepted", "BF": "corrupted-advertisement-accepted"}.get(exp["klass"], "unauthentic-advertisement-accepted")
             ctx.violation(key, f"{desc}: state {before_state}->{after_state}, listeners got {new_events}", replay)
             return False
         if klass in ("G1", "Gk", "Gk99"):
@@ -285,7 +293,7 @@ def run(ctx) -> None:
                     idx += 1
                     if ctx.mine(idx):
                         await run_history(ctx, start, hist, idx)
-        ctx.exhaustive_parts[f"all histories of length <= {depth} over 12 advertisement classes x 6 start state numbers"] = True
+        ctx.exhaustive_parts[f"all histories of length <= {depth} over 13 advertisement classes x 6 start state numbers"] = True
         for start in starts:
             await run_bitflips(ctx, start, starts.index(start))
         ctx.exhaustive_parts["every single-bit flip of payload and tag (6 start state numbers)"] = True
